@@ -395,7 +395,7 @@ class GNSSInfoMessage(MessagePayload):
         result = {
             'p1_time': np.array([float(m.p1_time) for m in messages]),
             'gps_time': np.array([float(m.gps_time) for m in messages]),
-            'gps_time_std_sec': np.array([m.baseline_distance_m for m in messages]),
+            'gps_time_std_sec': np.array([m.gps_time_std_sec for m in messages]),
             'leap_second': np.array([int(m.leap_second) for m in messages], dtype=int),
             'num_svs': np.array([int(m.num_svs) for m in messages], dtype=int),
             'corrections_age_sec': np.array([m.corrections_age_sec for m in messages]),
